@@ -39,8 +39,9 @@ type Case struct {
 	Schema  string `json:"schema"` // JSON schema of application/json content ("" = no content declared)
 	Body    string `json:"body"`   // JSON text of the body value
 	RawBody string `json:"raw_body,omitempty"`
-	CT      string `json:"ct"`   // response Content-Type
-	Opts    int    `json:"opts"` // 1 IncludeResponseStatus, 2 ExcludeResponseBody, 4 ExcludeWriteOnlyValidations, 8 MultiError
+	CT      string `json:"ct"`                 // response Content-Type
+	Opts    int    `json:"opts"`               // 1 IncludeResponseStatus, 2 ExcludeResponseBody, 4 ExcludeWriteOnlyValidations, 8 MultiError
+	PreOpts int    `json:"pre_opts,omitempty"` // > 0: option bits of a response validated first against the same document
 }
 
 func TestMain(m *testing.M) { h.Main(m, "C08") }
@@ -140,6 +141,19 @@ func check(c Case) (o h.Outcome) {
 	in := &openapi3filter.ResponseValidationInput{
 		RequestValidationInput: &openapi3filter.RequestValidationInput{Request: req, Route: route, Options: opts},
 		Status:                 c.Status, Header: hdr, Body: io.NopCloser(bytes.NewReader(body)), Options: opts,
+	}
+	if c.PreOpts > 0 {
+		// a response validated earlier against the same document, under other options and another
+		// status, must leave nothing behind
+		po := &openapi3filter.Options{IncludeResponseStatus: c.PreOpts&1 != 0, ExcludeResponseBody: c.PreOpts&2 != 0, ExcludeWriteOnlyValidations: c.PreOpts&4 != 0, MultiError: c.PreOpts&8 != 0}
+		pre := &openapi3filter.ResponseValidationInput{
+			RequestValidationInput: &openapi3filter.RequestValidationInput{Request: req, Route: route, Options: po},
+			Status:                 []int{200, 404, 500, 204}[c.PreOpts%4], Header: hdr.Clone(), Body: io.NopCloser(bytes.NewReader(body)), Options: po,
+		}
+		if !o.Guarded("ValidateResponse(prelude)", func() { _ = openapi3filter.ValidateResponse(context.Background(), pre) }) {
+			return
+		}
+		o.Class("prelude")
 	}
 	var verr error
 	if !o.Guarded("ValidateResponse", func() { verr = openapi3filter.ValidateResponse(context.Background(), in) }) {
@@ -429,5 +443,8 @@ func gen(t *rapid.T) Case {
 		}
 	}
 	c.Opts = rapid.IntRange(0, 15).Draw(t, "opts")
+	if rapid.IntRange(0, 3).Draw(t, "prelude") == 0 {
+		c.PreOpts = rapid.IntRange(1, 15).Draw(t, "preopts")
+	}
 	return c
 }
